@@ -20,7 +20,7 @@ from ..cfg import ENTRY, EXIT, Assume, header_exprs
 from ..core import (AnalysisIncomplete, arg_or_kw, call_name, const_value,
                     kwarg, params, param_default, target_names, u, walk_expr,
                     walk_local)
-from ..match import canon, classify, match
+from ..match import canon, match
 from ..patterns import assigns_to, finfo, returns_of, shared
 
 RA = 'enspara/ra/ra.py'
@@ -436,6 +436,32 @@ def _lengths_operand(cx, e):
     return isinstance(e, ast.Name) and e.id == 'lengths' and cx.param_only(e)
 
 
+def _is_current_lengths(cx, lens, s):
+    """`lens` has the value self.lengths holds at statement s: a dominating
+    `self.lengths = <V>` with V expanding to the same expression, and no other
+    rebinding of self.lengths in between."""
+    cfg = cx.fi.cfg
+    want = u(lens)
+    cands = [n for n in cfg.nodes if isinstance(n, ast.Assign) and len(n.targets) == 1 and cx.is_me_attr(n.targets[0], 'lengths')
+             and cfg.dominates(n, s) and n is not s]
+    for n in cands:
+        same = u(cx.vexpand(n.value, n)) == want
+        if not same and isinstance(lens, ast.Name) and isinstance(n.value, ast.Name) and n.value.id == lens.id:
+            # the very object that was stored: same definitions reach both uses, never mutated in place
+            same = cx.fi.rd.defs_at(n, lens.id) == cx.fi.rd.defs_at(cx.at_of(lens) or s, lens.id) and \
+                'UNBOUND' not in cx.fi.rd.defs_at(n, lens.id) and not cx.fi._mutated_in_place(lens.id)
+        if not same:
+            continue
+        later = [m for m in cfg.nodes if m is not n and m is not s and any(e[1] == 'lengths' or e[0] in ('reinit', 'recurse', 'opaque') for e in cx.events(m))
+                 and cfg.reachable(n, m, avoiding=[s]) and cfg.reachable(m, s, avoiding=[n])]
+        # the operands of V must be unchanged between n and s: vexpand of the
+        # use would not have produced the same text otherwise (value_of checks
+        # rebinding/mutation between definition and use)
+        if not later:
+            return True
+    return False
+
+
 def rebuild_kind(cx, s):
     """Classify `self._array = <E>`:
       'flat'    E is the row view of the flat data: np.array(partition_list(
@@ -446,22 +472,23 @@ def rebuild_kind(cx, s):
                 something else / with other lengths)."""
     if not (isinstance(s, ast.Assign) and len(s.targets) == 1 and cx.is_me_attr(s.targets[0], '_array')):
         return None
+    from ..normal import is_pure
     E = cx.vexpand(s.value, s)
     if isinstance(E, ast.Call) and call_name(E) in ('np.array', 'np.asarray') and E.args and isinstance(E.args[0], ast.Call) \
             and (call_name(E.args[0]) or '').split('.')[-1] == 'partition_list':
         a = E.args[0]
         flat = arg_or_kw(a, 0, 'list_to_partition')
         lens = arg_or_kw(a, 1, 'partition_lengths')
-        if len(a.args) + len(a.keywords) == 2 and flat is not None and lens is not None \
-                and cx.is_me_attr(flat, '_data') and _lengths_operand(cx, lens):
-            return 'flat'
-        if flat is not None and lens is not None and _near_far(cx, ast.Tuple(elts=[flat, lens], ctx=ast.Load())) == 'near':
-            return None         # decidably a partition of something else
+        if len(a.args) + len(a.keywords) == 2 and flat is not None and lens is not None:
+            if cx.is_me_attr(flat, '_data') and (_lengths_operand(cx, lens) or _is_current_lengths(cx, lens, s)):
+                return 'flat'
+            if is_pure(flat) and is_pure(lens):
+                return None     # decidably a partition of something else / by other lengths
         return 'unknown'
     if isinstance(E, ast.Call) and isinstance(E.func, ast.Attribute) and E.func.attr == 'reshape' and cx.is_me_attr(E.func.value, '_data'):
         return 'flat'
-    if _mentions_attr(cx, E, '_data') and _near_far(cx, E) == 'far':
-        return 'unknown'
+    if any(isinstance(n, ast.Name) and n.id == cx.me for n in ast.walk(E)) and not is_pure(E):
+        return 'unknown'        # computed from the receiver through a helper the rule cannot see through
     return None
 
 
@@ -503,7 +530,8 @@ def typestate(ck, mod, qual, fn, cx, is_ctor=False):
             for kind, what, stmt, extra in evs:
                 if kind == 'reinit':
                     arg = cx.vexpand(extra[0], n) if extra else None
-                    if arg is not None and cx.is_me_attr(arg, '_array') and DATA in new:
+                    from_rows = arg is not None and (cx.is_me_attr(arg, '_array') or cx.roots(extra[0], n) == {'_array'})
+                    if from_rows and DATA in new:
                         illegal[n] = ('the object is rebuilt from its rows (self.__init__(self._array)) while a '
                                       'store into the flat data has not been propagated to the rows: it is lost')
                     new.clear()
